@@ -955,6 +955,47 @@ def o_poly(ctx, case):
     return None
 
 
+def o_poly_equivariance(ctx, case):
+    """the inversion does not depend on the unit or origin of the signal-strength axis: fitting p against lam*ns returns
+    lam times the signal strength (lam a power of two: every intermediate quantity scales exactly, so even the branch
+    decisions are identical), and fitting against ns + s returns the signal strength + s (away from the branch
+    boundaries a = 0 and D = 0, where rounding of the fit may flip the branch)"""
+    x, y, w, deg, p = _fl(case['x']), _fl(case['y']), _fl(case['w']), case['deg'], _f(case['pthr'])
+    if deg not in (1, 2):
+        return None
+    r0 = impl_poly(case)
+    if r0[0] != 'ok':
+        return None
+    v0 = r0[1]
+    span = max(x) - min(x)
+    for lam in (1024.0, 1.0 / 128.0, 2.0 ** 20):
+        r = impl_poly(dict(case, x=[lam * t for t in x]))
+        if r[0] != 'ok' or math.isfinite(r[1]) != math.isfinite(v0) or (
+                math.isfinite(v0) and not _close(r[1], lam * v0, 1e-9 * lam * (abs(v0) + span))):
+            return ('polynomial_fit(deg=%d, p_thr=%r) = %r for the signal strengths x=%r, but %r for %r * x (expected %r): the result '
+                    'depends on the unit of the signal-strength axis (y=%r)' % (deg, p, v0, x, r[1] if r[0] == 'ok' else r, lam, lam * v0, y))
+    if not math.isfinite(v0):
+        return None
+    try:
+        a2, b2, c2 = _polyfit(x, y, 2, w) if deg == 2 else (0.0, 1.0, 0.0)
+    except Exception:  # noqa
+        return None
+    if deg == 2:
+        D = b2 * b2 - 4 * a2 * (c2 - p)
+        sc = b2 * b2 + abs(4 * a2 * (c2 - p))
+        # conditioning of the root w.r.t. the fitted coefficients: stay away from a = 0, D = 0 and far extrapolation
+        if abs(D) < 1e-3 * sc or abs(a2) * span * span < 1e-3 * (abs(b2) * span + abs(a2) * span * span) or abs(v0 - min(x)) > 10 * span:
+            return None
+    elif abs(v0 - min(x)) > 10 * span:
+        return None
+    for sft in (span, -3.0 * span):
+        r = impl_poly(dict(case, x=[t + sft for t in x]))
+        if r[0] != 'ok' or not math.isfinite(r[1]) or not _close(r[1], v0 + sft, 1e-6 * (abs(v0 - min(x)) + span)):
+            return ('polynomial_fit(deg=%d, p_thr=%r) = %r for x=%r, but %r for x + %r (expected %r): the result depends on the '
+                    'origin of the signal-strength axis (y=%r)' % (deg, p, v0, x, r[1] if r[0] == 'ok' else r, sft, v0 + sft, y))
+    return None
+
+
 # ------------------------------------------------------------------------------------------
 # purity of every helper: no writes into caller arrays, same objects twice -> same result, any input form
 
@@ -1393,7 +1434,7 @@ def _corr_hist(ctx, hcases):
     return res
 
 
-ORACLES = {'gamma_real': o_gamma_real, 'llh_history': o_llh_history, 'purity': o_purity, 'ts_history': o_ts_history, 'ts': o_ts, 'ts_taylor': o_ts_taylor, 'ts_real': o_ts_real, 'ana_chain': o_ana_chain,
+ORACLES = {'poly_equivariance': o_poly_equivariance, 'gamma_real': o_gamma_real, 'llh_history': o_llh_history, 'purity': o_purity, 'ts_history': o_ts_history, 'ts': o_ts, 'ts_taylor': o_ts_taylor, 'ts_real': o_ts_real, 'ana_chain': o_ana_chain,
            'pval': o_pval, 'mixed': o_mixed, 'poly': o_poly, 'corr': o_corr}
 
 # property oracle looking at the same behaviour as a correspondence kind, and how to turn the case into its input
@@ -1427,7 +1468,7 @@ def _classify(res):
     m = re.search(r'raised (\w+)', res)
     if m:
         return 'raises-' + m.group(1)
-    for key, tag in (('a fresh instance gives', 'depends-on-earlier-calls'), ('outside [0,1]', 'range'), ('increases with', 'not-antitone'), ('smaller than the strict', 'ge-smaller'),
+    for key, tag in (('depends on the unit', 'depends-on-ns-unit'), ('depends on the origin', 'depends-on-ns-origin'), ('a fresh instance gives', 'depends-on-earlier-calls'), ('outside [0,1]', 'range'), ('increases with', 'not-antitone'), ('smaller than the strict', 'ge-smaller'),
                      ('trials', 'wrong-count'), ('falling branch', 'wrong-root'), ('no fall-back is taken', 'returns-nan'), ('never reaches', 'no-root'),
                      ('instead of raising', 'no-error')):
         if key in res:
@@ -1475,8 +1516,9 @@ def gen_thresholds(rng, vals, k):
 
 def gen_curve(rng):
     n = rng.choice([3, 4, 4, 5, 6, 8, 12])
-    lo = rng.choice([0.0, 1.0, 5.0])
-    span = rng.choice([2.0, 5.0, 20.0])
+    # signal-strength scales from a weak single source to stacked / very strong sources: the property is scale free
+    span = rng.choice([0.05, 2.0, 5.0, 20.0, 20.0, 100.0, 1500.0, 1e4])
+    lo = rng.choice([0.0, 0.05 * span, 0.25 * span])
     xs = sorted(lo + span * rng.random() for _ in range(n))
     if rng.random() < 0.5:
         xs = [lo + span * i / (n - 1) for i in range(n)]
@@ -1513,16 +1555,16 @@ def gen_real(rng, nprng):
     K = 1 if mode == 'single' else rng.choice([1, 1, 2, 3])
     Rs, Ns = [], []
     for j in range(J):
-        E = rng.choice([1, 2, 3, 5, 8])
+        E = rng.choice([0, 1, 1, 2, 3, 5, 8])         # 0: the event selection kept no event of this dataset
         R = nprng.uniform(0.0, 4.0, size=(K, E))
-        if rng.random() < 0.2:
+        if E and rng.random() < 0.2:
             R[:, 0] = 1.0                  # an event without any pull
         Rs.append(R.tolist())
-        Ns.append(E + rng.choice([0, 0, 1, 3, 20]))
+        Ns.append(max(1, E + rng.choice([0, 0, 1, 3, 20, 50])))
     if rng.random() < 0.08:
         # degenerate: every ratio 1 and no pure-background event -> a = b = 0
         Rs = [[[1.0] * len(R[0]) for _k in R] for R in Rs]
-        Ns = [len(R[0]) for R in Rs]
+        Ns = [max(1, len(R[0])) for R in Rs]
     ns = rng.choice([0.0, 0.0, 0.0, -0.0, 1.5, -0.75, 0.25, -1e-3])
     if ns > 0:
         ns = min(ns, 0.6 * min(Ns))        # a fit result has ns < N
@@ -1577,8 +1619,8 @@ def gen_purity(rng):
 
 
 def gen_lh(rng):
-    E = rng.choice([1, 2, 3, 5])
-    N = E + rng.choice([0, 0, 1, 3, 20])
+    E = rng.choice([0, 1, 2, 3, 5])                # 0: no selected event at all
+    N = max(1, E + rng.choice([0, 0, 1, 3, 20]))
     R = [rng.choice([rng.uniform(0.0, 4.0), rng.uniform(0.0, 4.0), 1.0]) for _ in range(E)]
     if rng.random() < 0.08:
         R = [1.0] * E
@@ -1678,6 +1720,7 @@ def run(ctx):
     # ---- histories on one real LLH-ratio object
     lhs = [gen_lh(rng) for _ in range(ctx.n(60, 1500))]
     for c in lhs:
+        ctx.count('lh:selected-events=%s' % ('0' if not c['R'] else '>=1'))
         ctx.count('lh:ends-with-' + c['ops'][-1][0])
         ctx.count('lh:stale-before-TS', int(any(o[0] in 'tu' and any(p[0] == 'e' and _f(p[1]) != 0 for p in c['ops'][:i])
                                                 for i, o in enumerate(c['ops']))))
@@ -1690,6 +1733,7 @@ def run(ctx):
     # ---- real LLH ratios
     reals = [gen_real(rng, nprng) for _ in range(ctx.n(40, 1500))]
     for c in reals:
+        ctx.count('real:selected-events=%s' % ('0-in-some-dataset' if any(len(R[0]) == 0 for R in c['Rs']) else '>=1'))
         ctx.count('real:%s:ns%s' % (c['mode'], '<0' if _f(c['ns']) < 0 else '=0' if _f(c['ns']) == 0 else '>0'))
         ocases.append(('ts_real', c))
     for c in reals[:ctx.n(6, 60)]:
@@ -1731,7 +1775,9 @@ def run(ctx):
         c = {'kind': 'poly', 'x': xs, 'y': ys, 'w': ws, 'deg': deg, 'pthr': pthr}
         cases.append(c)
         ocases.append(('poly', c))
+        ocases.append(('poly_equivariance', c))
         ctx.count('poly:deg=%d' % deg)
+        ctx.count('poly:ns-scale=%s' % ('<1' if max(xs) < 1 else '<=100' if max(xs) <= 100 else '>100'))
         if deg == 2:
             try:
                 a2, b2, c2 = _polyfit(xs, ys, 2, ws)
